@@ -53,6 +53,8 @@ func main() {
 	goarch := flag.String("goarch", "", "load the repository for this GOARCH (thorough tier re-checks under 386)")
 	dumpfn := flag.String("dumpfn", "", "debug: print the symbolic paths of a function (Recv.Name)")
 	dumphnd := flag.String("dumphnd", "", "debug: print the handler summary of an opcode constant")
+	dumpnets := flag.Bool("dumpnets", false, "debug: print the net stack effect of every handler")
+	dumpcase := flag.String("dumpcase", "", "debug: print the layouts of a compile-case label (or 'all')")
 	flag.Parse()
 	if *listFuncs {
 		ctx, err := loadRepo(*repo, nil)
@@ -66,11 +68,60 @@ func main() {
 		return
 	}
 	triageDir = filepath.Join(*verif, "triage")
-	if *dumpfn != "" || *dumphnd != "" {
+	if *dumpfn != "" || *dumphnd != "" || *dumpcase != "" || *dumpnets {
 		ctx, err := loadRepo(*repo, nil)
 		if err != nil {
 			fmt.Println(err)
 			os.Exit(2)
+		}
+		if *dumpnets {
+			debugNets(ctx)
+			return
+		}
+		if *dumpcase != "" {
+			cs, err := ctx.compileSwitch()
+			if err != nil {
+				fmt.Println(err)
+				os.Exit(2)
+			}
+			for _, sc := range cs.Cases {
+				if len(sc.Labels) == 0 || (*dumpcase != "all" && sc.Labels[0] != *dumpcase) {
+					continue
+				}
+				m := newLayMachine(ctx)
+				cl, err := m.runCase(cs, sc.Labels[0])
+				fmt.Printf("== %q err=%v", sc.Labels[0], err)
+				if cl == nil {
+					fmt.Println()
+					continue
+				}
+				fmt.Printf(" paths=%d iters=%d flags=%v\n", len(cl.Paths), len(cl.Iters), cl.Flags)
+				if *dumpcase != "all" {
+					for i, p := range cl.Paths {
+						var as []string
+						for _, a := range p.Atoms {
+							as = append(as, a.String())
+							if a.Seg != nil && a.Seg.Src != nil {
+								as = append(as, "<"+a.Seg.Kind+":"+a.Seg.Src.String()+">")
+							}
+						}
+						fmt.Printf("  path %d [%s]\n     %s\n", i, condStrings(p.St), strings.Join(as, " "))
+					}
+					for i, it := range cl.Iters {
+						for j, ex := range it.Exits {
+							var as []string
+							for _, a := range ex.Atoms {
+								as = append(as, a.String())
+								if a.Seg != nil && a.Seg.Src != nil {
+									as = append(as, "<"+a.Seg.Kind+":"+a.Seg.Src.String()+">")
+								}
+							}
+							fmt.Printf("  iter %d exit %d [%s]\n     %s\n", i, j, condStrings(ex.St), strings.Join(as, " "))
+						}
+					}
+				}
+			}
+			return
 		}
 		if *dumphnd != "" {
 			m, err := newHndMachine(ctx)
